@@ -445,6 +445,15 @@ func (s *IndexedState) rem(ctx *Context, id string) (bool, error) {
 			return false, nil
 		}
 
+		// Remove from storage before touching memory.  If storage
+		// fails, memory still agrees with it and a retry gets here
+		// again instead of being acknowledged without ever reaching
+		// storage.
+		_, err = s.Store.Remove(ctx, s.Name, []byte(id))
+		if err != nil {
+			return false, err
+		}
+
 		if rule != nil {
 			if err := s.unindexRule(ctx, id, rule); err != nil {
 				return false, err
@@ -454,11 +463,6 @@ func (s *IndexedState) rem(ctx *Context, id string) (bool, error) {
 		delete(s.IdToFact, id)
 
 		s.FactIndex.RemIdTerms(ctx, ExtractTerms(ctx, fact), id)
-
-		_, err = s.Store.Remove(ctx, s.Name, []byte(id))
-		if err != nil {
-			return true, err
-		}
 	} else {
 		Log(DEBUG, ctx, "IndexedState.rem", "state", s.Name, "id", id, "warning", "not found")
 	}
